@@ -8,6 +8,7 @@ import MV.Driver.Scale
 import MV.Driver.QCI
 import MV.Driver.InvCDF
 import MV.Driver.Fit
+import MV.Driver.KDE
 open MV
 
 /-- ops whose handler models panics itself -/
@@ -25,6 +26,8 @@ def dispatchOp (ins outs : List J) : Verdict :=
   | .atom "qci" :: rest => QCI.handleQCI rest outs
   | .atom "inv" :: rest => InvCDF.handleInv rest outs
   | .atom "lls" :: rest => Fit.handleLLS rest outs
+  | .atom "kde" :: rest => KDE.handleKDE rest outs
+  | .atom "bw" :: rest => KDE.handleBW rest outs
   | .atom "preg" :: rest => Fit.handlePReg rest outs
   | .atom "loess" :: rest => Fit.handleLoess rest outs
   | .atom "rnd" :: rest => InvCDF.handleRnd rest outs
